@@ -71,6 +71,10 @@ pub enum NativeSpec {
     Fail,
     /// returns a new table {0: a, 1: b}
     Pair,
+    /// table of the n arguments under the keys 0..n-1
+    Wrap(usize),
+    /// calls the first argument with the second one, returns the table [result, second argument]
+    Keep,
     /// returns the concatenation of the textual forms (allocates a string)
     Concat,
 }
@@ -1197,6 +1201,8 @@ impl<'a> Interp<'a> {
             NativeSpec::Apply(n) => 1 + n,
             NativeSpec::Fail => 0,
             NativeSpec::Pair => 2,
+            NativeSpec::Wrap(n) => *n,
+            NativeSpec::Keep => 2,
             NativeSpec::Concat => 2,
         };
         if args.len() != want {
@@ -1239,6 +1245,34 @@ impl<'a> Interp<'a> {
                     tt.borrow_mut().set(RV::Int(1), args[1].clone());
                 }
                 Ok(t)
+            }
+            NativeSpec::Wrap(_) => {
+                let t = RV::new_table();
+                if let RV::Table(tt) = &t {
+                    for (i, a) in args.iter().enumerate() {
+                        tt.borrow_mut().set(RV::Int(i as i64), a.clone());
+                    }
+                }
+                Ok(t)
+            }
+            NativeSpec::Keep => {
+                let f = args[0].clone();
+                self.feat("native-reenters-script");
+                self.enter(1)?;
+                let r = self.call_value(&f, vec![args[1].clone()], at, None);
+                self.depth -= 1;
+                match r {
+                    Err(Stop::Error { kind, at: _, chain: _ }) => Err(Stop::Error { kind: format!("TaskFailure[{name}:{kind}]"), at: at.clone(), chain: self.chain.iter().rev().cloned().collect() }),
+                    Err(e) => Err(e),
+                    Ok(rv) => {
+                        let t = RV::new_table();
+                        if let RV::Table(tt) = &t {
+                            tt.borrow_mut().set(RV::Int(0), rv);
+                            tt.borrow_mut().set(RV::Int(1), args[1].clone());
+                        }
+                        Ok(t)
+                    }
+                }
             }
             NativeSpec::Concat => {
                 let s = format!("{}|{}", to_dval(&args[0]).short(), to_dval(&args[1]).short());
